@@ -16,10 +16,10 @@ import json, os, re, concurrent.futures as cf
 from vlib import Infra, log, read_ndjson, write_ndjson
 
 PROFILE = {
-    "C12": dict(quick=["F1q", "F3", "F4", "F5", "F6q", "F7", "F8", "F9", "F10", "F11", "F12"], thorough=["F1", "F2", "F3", "F4", "F5", "F6", "F7", "F8", "F9", "F10", "F11", "F12"],
+    "C12": dict(quick=["F1q", "F3", "F4", "F5", "F6q", "F7", "F8", "F9", "F10", "F11", "F12", "F13", "F14"], thorough=["F1", "F2", "F3", "F4", "F5", "F6", "F7", "F8", "F9", "F10", "F11", "F12", "F13", "F14"],
                 rand=(160, 8000), mode="C12"),
-    "C14": dict(quick=["G1c", "G2b", "G2X", "G2S", "G2T", "G3", "G4", "G4X", "G5", "G6"],
-                thorough=["G1c", "G1l", "G1h", "G2a", "G2b", "G2c", "G2d", "G2e", "G2X", "G2S", "G2T", "G3", "G4", "G4X", "G5", "G6"],
+    "C14": dict(quick=["G1c", "G2b", "G2X", "G2S", "G2T", "G3", "G4", "G4X", "G5", "G6", "G7"],
+                thorough=["G1c", "G1l", "G1h", "G2a", "G2b", "G2c", "G2d", "G2e", "G2X", "G2S", "G2T", "G3", "G4", "G4X", "G5", "G6", "G7"],
                 rand=(160, 8000), mode="C14"),
     "C20": dict(quick=["H1q", "H2", "H3", "H4", "H5", "H6"], thorough=["H1", "H2", "H3", "H4", "H5", "H6"], rand=(160, 6000), mode="C20"),
 }
